@@ -442,7 +442,7 @@ func (r *replayer) Run(v *Violation) (bool, string) {
 	case "nonfinite":
 		return strings.Contains(so, "SYM-NONFINITE") || strings.Contains(so, "SYM-ASSERT-FAILED"), so
 	case "alloc":
-		return strings.Contains(so, "SYM-ALLOC-EXCEEDED"), so
+		return strings.Contains(so, "SYM-ALLOC-EXCEEDED") || strings.Contains(so, "out of memory") || strings.Contains(so, "len out of range") || strings.Contains(so, "cap out of range"), so
 	case "global-write":
 		return strings.Contains(so, "SYM-GLOBAL-MODIFIED"), so
 	}
@@ -556,9 +556,14 @@ func writeEvidence(verif string, spec CheckSpec, cfg Config, all []*HarnessStats
 		"outside_the_claim":   spec.Outside,
 		"exhaustive":          false,
 	}
+	assumptions := append([]string{
+		"go/ssa (x/tools v0.29.0) faithfully represents the compiled Go program; the gosym interpreter implements SSA instruction semantics (validated by native replay of counterexamples and ./check selftest)",
+		"z3 answers are correct; any unknown/timeout/(error makes the run INCONCLUSIVE (exit 3), never success",
+		"append growth follows runtime.growslice of go1.23 amd64 (size classes); fmt.Sprintf/Errorf results are opaque strings/errors",
+	}, spec.Assumptions...)
 	ev := map[string]interface{}{
 		"property_id": spec.Property, "tier": cfg.Tier, "seed": cfg.Seed, "level": "other",
-		"coverage": cov, "assumptions": spec.Assumptions, "wall_s": round2(wall.Seconds()), "violations": newViol,
+		"coverage": cov, "assumptions": assumptions, "wall_s": round2(wall.Seconds()), "violations": newViol,
 	}
 	b, _ := json.MarshalIndent(ev, "", " ")
 	os.MkdirAll(filepath.Join(verif, "evidence"), 0o755)
